@@ -4,7 +4,12 @@
      <P> <databytes|-1> <time> <host> <ip> <info> <lhost> <lip> <relay> <qqscript> <wfault> <chunk> <payload…>
         = <exit> <out> <pids> <nrec> (<fd0> <fd1>)*
    DISAGREE: model ≠ implementation.  ORACLE: the property predicate (Nq/Spec/C07.lean) fails on what the
-   implementation did.  -/
+   implementation did.
+   Real-queue leg (protocol letter in lower case): the queue program was the real qmail-queue.c; the line goes on with
+        + <nruns> (<exit|-1> <committed> <mess file> <todo file>)* <stray todo entries>
+   and is judged twice: as above on the two pipes (with the exit statuses qmail-queue produced), and once more with the
+   QUEUE DIRECTORY in the place of the pipes ("view=queue-directory"): a message counts as queued iff todo/<inode> exists,
+   its content is the mess file behind qmail-queue's own trace line, its envelope the todo file.  -/
 import Drv.Util
 import Nq.Netstring
 import Nq.Spec.C07
@@ -33,6 +38,9 @@ structure Case where
   pids : List Nat
   recs : List (Bytes × Bytes)
   key : String
+  queueView : Bool := false        -- `recs` / `ends` describe the queue directory (real-queue leg), not the pipes
+  real : List (Int × Bool × Bytes × Bytes) := []   -- real-queue leg: per run (exit status, committed, mess file, todo file)
+  strays : Nat := 0
 
 def parseEnds (s : String) : Option (List QEnd) :=
   (s.splitOn ";").mapM (fun e =>
@@ -58,7 +66,10 @@ def parseCase (line : String) : Option Case := do
   let fs := fields line
   let i ← fs.idxOf? "="
   let pre := fs.take i
-  let post := fs.drop (i + 1)
+  let post0 := fs.drop (i + 1)
+  let (post, realPart) := match post0.idxOf? "+" with
+    | some j => (post0.take j, post0.drop (j + 1))
+    | none => (post0, [])
   guard (pre.length ≥ 13 ∧ post.length ≥ 4)
   let g := fun k => pre.getD k ""
   let host ← optHex (g 3); let ip ← optHex (g 4); let info ← optHex (g 5)
@@ -70,11 +81,20 @@ def parseCase (line : String) : Option Case := do
   let nrec := (post.getD 3 "0").toNat?.getD 0
   let recs ← pairUp (post.drop 4)
   guard (recs.length = nrec)
+  let nruns := (realPart.getD 0 "0").toNat?.getD 0
+  let rec quad : Nat → List String → Option (List (Int × Bool × Bytes × Bytes))
+    | 0, _ => some []
+    | n + 1, a :: b :: m :: t :: r => do
+      let mm ← unhex m; let tt ← unhex t; let rest ← quad n r
+      some ((a.toInt?.getD (-1), b == "1", mm, tt) :: rest)
+    | _, _ => none
+  let real ← quad nruns (realPart.drop 1)
+  let strays := (realPart.getD (1 + 4 * nruns) "0").toNat?.getD 0
   some { proto := g 0, databytes := normDatabytes ((g 1).toInt?.getD (-1)), now := (g 2).toNat?.getD 0,
          peer := ⟨host, ip, info, lhost, lip⟩, relay := relay, ends := ends,
          wleft := if wf < 0 then none else some wf.toNat, chunk := (g 11).toNat?.getD 0, pay := pre.drop 12,
          exit := (post.getD 0 "").toInt?.getD (-99), out := out, pids := pids, recs := recs,
-         key := " ".intercalate pre }
+         key := " ".intercalate pre, real := real, strays := strays }
 
 /-! ### helpers of the oracle -/
 
@@ -108,7 +128,15 @@ def outOfContract (e : QEnd) : Bool :=
 
 def Rep.ora (r : Rep) (c : Case) (kind what : String) : Rep :=
   let tag := if (kind == "ack-not-exact" || kind == "class") && c.ends.any outOfContract then " known=qq-custom-text-unvalidated" else ""
-  { r with st := { r.st with oracle := r.st.oracle + 1 }, msgs := r.msgs ++ [s!"ORACLE kind={kind} what={what}{tag} case={c.key.replace " " "|"}"] }
+  let view := if c.queueView then " view=queue-directory" else ""
+  { r with st := { r.st with oracle := r.st.oracle + 1 }, msgs := r.msgs ++ [s!"ORACLE kind={kind}{view} what={what}{tag} case={c.key.replace " " "|"}"] }
+
+/-- the trace field at the head of what was handed to the queue, judged on its own (whatever the peer strings were):
+    a well-formed header field in the sense of `Spec.C07.wf822` -/
+def recvCheck (r : Rep) (c : Case) (f0 : Bytes) : Rep :=
+  let fld := Nq.Spec.C07.takeLines 2 f0
+  if Nq.Spec.C07.wf822 fld then r
+  else r.ora c "received-malformed" s!"the Received field of an acknowledged message is not a well-formed header field (printable ASCII, comments balanced, no backslash or quote, one folded line break): {hex fld}"
 
 def lhostOf (p : Peer) : Bytes := p.loc
 
@@ -121,15 +149,16 @@ def qmtpCheck (c : Case) (r0 : Rep) : Rep := Id.run do
   let some inp := unhex (c.pay.getD 0 "-") | return r.dis c "unparsable-input"
   let cfg : Qmtp.Cfg := { databytes := c.databytes, relay := c.relay, rcpthosts := some rcpthostsFile, peer := c.peer, now := c.now, chunk := c.chunk }
   -- (1) model vs implementation
-  let s := Qmtp.run cfg c.wleft c.ends c.pids inp
-  if s.out != c.out then r := r.dis c s!"output model={hex s.out} impl={hex c.out}"
-  if Int.ofNat s.exit.code != c.exit then r := r.dis c s!"exit model={s.exit.code} impl={c.exit}"
-  let opened := s.msgs.filter (·.m.opened)
-  if opened.length != c.recs.length then r := r.dis c s!"queue-runs model={opened.length} impl={c.recs.length}"
-  else
-    for (d, (f0, f1)) in opened.zip c.recs do
-      if d.q.msgPipe != f0 then r := r.dis c s!"message-pipe model={hex d.q.msgPipe} impl={hex f0}"
-      if d.q.envPipe != f1 then r := r.dis c s!"envelope-pipe model={hex d.q.envPipe} impl={hex f1}"
+  if !c.queueView then
+    let s := Qmtp.run cfg c.wleft c.ends c.pids inp
+    if s.out != c.out then r := r.dis c s!"output model={hex s.out} impl={hex c.out}"
+    if Int.ofNat s.exit.code != c.exit then r := r.dis c s!"exit model={s.exit.code} impl={c.exit}"
+    let opened := s.msgs.filter (·.m.opened)
+    if opened.length != c.recs.length then r := r.dis c s!"queue-runs model={opened.length} impl={c.recs.length}"
+    else
+      for (d, (f0, f1)) in opened.zip c.recs do
+        if d.q.msgPipe != f0 then r := r.dis c s!"message-pipe model={hex d.q.msgPipe} impl={hex f0}"
+        if d.q.envPipe != f1 then r := r.dis c s!"envelope-pipe model={hex d.q.envPipe} impl={hex f1}"
   -- (2) property oracle on the implementation's behaviour
   let (reqs, _) := Nq.Spec.C07.qmtpAll (inp.length + 1) inp
   let some reps := Nq.Spec.C07.nsList c.out | return r.ora c "garbled-output" "output is not a sequence of netstrings"
@@ -162,6 +191,7 @@ def qmtpCheck (c : Case) (r0 : Rep) : Rep := Id.run do
       match rec? with
       | none => r := r.ora c "ack-without-queue" s!"message {k} acknowledged but no queue run"
       | some (f0, f1) =>
+        r := recvCheck r c f0
         if !Queued f0 f1 e.exit e.crashed content q.sender expectRcpts then
           r := r.ora c "ack-not-exact" s!"message {k} acknowledged but queue got fd0={hex f0} fd1={hex f1} exit={e.exit} crashed={e.crashed} expected-content={hex content} expected-rcpts={expectRcpts.map hex} replies-seen={mine.length}/{n}"
       if tooBig then r := r.ora c "ack-oversize" s!"message {k} of {stored.length} bytes acknowledged with databytes={c.databytes}"
@@ -198,15 +228,16 @@ def qmqpCheck (c : Case) (r0 : Rep) : Rep := Id.run do
   let some inp := unhex (c.pay.getD 0 "-") | return r.dis c "unparsable-input"
   let cfg : Qmqp.Cfg := { peer := c.peer, now := c.now }
   let e := endAt c.ends 0
-  let o := Qmqp.run cfg c.wleft e (c.pids.headD 0) inp
-  if o.out != c.out then r := r.dis c s!"output model={hex o.out} impl={hex c.out}"
-  if Int.ofNat o.exit.code != c.exit then r := r.dis c s!"exit model={o.exit.code} impl={c.exit}"
-  match o.r.opened, c.recs with
-  | false, [] => pure ()
-  | true, [(f0, f1)] =>
-    if o.q.msgPipe != f0 then r := r.dis c s!"message-pipe model={hex o.q.msgPipe} impl={hex f0}"
-    if o.q.envPipe != f1 then r := r.dis c s!"envelope-pipe model={hex o.q.envPipe} impl={hex f1}"
-  | _, _ => r := r.dis c s!"queue-runs model={o.r.opened} impl={c.recs.length}"
+  if !c.queueView then
+    let o := Qmqp.run cfg c.wleft e (c.pids.headD 0) inp
+    if o.out != c.out then r := r.dis c s!"output model={hex o.out} impl={hex c.out}"
+    if Int.ofNat o.exit.code != c.exit then r := r.dis c s!"exit model={o.exit.code} impl={c.exit}"
+    match o.r.opened, c.recs with
+    | false, [] => pure ()
+    | true, [(f0, f1)] =>
+      if o.q.msgPipe != f0 then r := r.dis c s!"message-pipe model={hex o.q.msgPipe} impl={hex f0}"
+      if o.q.envPipe != f1 then r := r.dis c s!"envelope-pipe model={hex o.q.envPipe} impl={hex f1}"
+    | _, _ => r := r.dis c s!"queue-runs model={o.r.opened} impl={c.recs.length}"
   -- oracle
   let parsed : Option (Option Bytes) := if c.out.isEmpty then some none else
     match Nq.Spec.C07.ns? c.out with
@@ -225,6 +256,7 @@ def qmqpCheck (c : Case) (r0 : Rep) : Rep := Id.run do
     if acked then
       match c.recs with
       | [(f0, f1)] =>
+        r := recvCheck r c f0
         if !Queued f0 f1 e.exit e.crashed content q.sender q.rcpts then
           r := r.ora c "ack-not-exact" s!"acknowledged but queue got fd0={hex f0} fd1={hex f1} exit={e.exit} crashed={e.crashed} expected-content={hex content}"
       | _ => r := r.ora c "ack-without-queue" "acknowledged but no (single) queue run"
@@ -257,7 +289,10 @@ def isAckLine (now : Nat) (l : Bytes) : Bool :=
 def smtpCheck (c : Case) (r0 : Rep) : Rep := Id.run do
   let mut r := r0
   let g := fun k => c.pay.getD k "-"
-  let some heloO := optHex (g 0) | return r.dis c "unparsable-helo"
+  -- "!" in front: EHLO.  What dohelo() receives: commands.c skips the blanks behind the verb, and a C string ends at a NUL
+  let ehlo := (g 0).startsWith "!"
+  let some heloRaw := optHex (if ehlo then ((g 0).drop 1).toString else g 0) | return r.dis c "unparsable-helo"
+  let heloO := heloRaw.map (fun h => cstr (h.dropWhile (· == 32)))
   let some sender := unhex (g 1) | return r.dis c "unparsable-sender"
   let some rcpts := (if g 2 == "-" then some [] else ((g 2).splitOn ",").mapM unhex) | return r.dis c "unparsable-rcpts"
   let some stream0 := unhex (g 3) | return r.dis c "unparsable-stream"
@@ -286,43 +321,46 @@ def smtpCheck (c : Case) (r0 : Rep) : Rep := Id.run do
       if envComplete f1 then r := r.ora c "queued-cut" "complete envelope although the client disconnected before DATA"
     return r
   -- (1) model
-  let pre := str "220 me.example ESMTP\r\n" ++ (if heloO.isSome then str "250 me.example\r\n" else []) ++
+  let pre := str "220 me.example ESMTP\r\n" ++
+    (if heloO.isSome then (if ehlo then str "250-me.example\r\n250-PIPELINING\r\n250 8BITMIME\r\n" else str "250 me.example\r\n") else []) ++
     (if mailOk then str "250 ok\r\n" else str "555 syntax error (#5.5.4)\r\n") ++
     (rcptRes.map (fun x => x.1 ++ crlfB)).flatten
   let dataOk := mailOk && !accepted.isEmpty
   if !dataOk then
     let pre2 := pre ++ (if !mailOk then str "503 MAIL first (#5.5.1)\r\n" else str "503 RCPT first (#5.5.1)\r\n")
-    if c.out.take pre2.length != pre2 then r := r.dis c s!"output-prefix model={hex pre2} impl={hex c.out}"
-    if !c.recs.isEmpty then r := r.dis c "queue-run although DATA was refused"
+    if !c.queueView then
+      if c.out.take pre2.length != pre2 then r := r.dis c s!"output-prefix model={hex pre2} impl={hex c.out}"
+      if !c.recs.isEmpty then r := r.dis c "queue-run although DATA was refused"
     if !ackLines.isEmpty then r := r.ora c "ack-refused-data" "acknowledgement although DATA was refused"
     return r
   let rcptto := (accepted.map (fun a => [84] ++ a ++ [0])).flatten
   let d := Smtp.data cfg heloO sender rcptto stream
   let q := (QQ.opened c.wleft).run d.ops
   let pre3 := pre ++ str "354 go ahead\r\n"
-  match c.recs with
-  | [(f0, f1)] =>
-    if q.msgPipe != f0 then r := r.dis c s!"message-pipe model={hex q.msgPipe} impl={hex f0}"
-    if q.envPipe != f1 then r := r.dis c s!"envelope-pipe model={hex q.envPipe} impl={hex f1}"
-  | _ => r := r.dis c s!"queue-runs model=1 impl={c.recs.length}"
-  match d.stop with
-  | some _ =>
-    let exp := pre3 ++ (if d.stray then str "451 See https://cr.yp.to/docs/smtplf.html.\r\n" else [])
-    if c.out != exp then r := r.dis c s!"output model={hex exp} impl={hex c.out}"
-    if c.exit != 1 then r := r.dis c s!"exit model=1 impl={c.exit}"
-  | none =>
-    let rep := Smtp.reply d (q.verdict e) c.now (c.pids.headD 0)
-    let exp := pre3 ++ rep
-    if d.rest == str "QUIT\r\n" then
-      if c.out != exp ++ str "221 me.example\r\n" then r := r.dis c s!"output model={hex (exp ++ str "221 me.example\r\n")} impl={hex c.out}"
-      if c.exit != 0 then r := r.dis c s!"exit model=0 impl={c.exit}"
-    else if d.rest.isEmpty then
+  if !c.queueView then
+    match c.recs with
+    | [(f0, f1)] =>
+      if q.msgPipe != f0 then r := r.dis c s!"message-pipe model={hex q.msgPipe} impl={hex f0}"
+      if q.envPipe != f1 then r := r.dis c s!"envelope-pipe model={hex q.envPipe} impl={hex f1}"
+    | _ => r := r.dis c s!"queue-runs model=1 impl={c.recs.length}"
+    match d.stop with
+    | some _ =>
+      let exp := pre3 ++ (if d.stray then str "451 See https://cr.yp.to/docs/smtplf.html.\r\n" else [])
       if c.out != exp then r := r.dis c s!"output model={hex exp} impl={hex c.out}"
       if c.exit != 1 then r := r.dis c s!"exit model=1 impl={c.exit}"
-    else if c.out.take exp.length != exp then r := r.dis c s!"output-prefix model={hex exp} impl={hex c.out}"
+    | none =>
+      let rep := Smtp.reply d (q.verdict e) c.now (c.pids.headD 0)
+      let exp := pre3 ++ rep
+      if d.rest == str "QUIT\r\n" then
+        if c.out != exp ++ str "221 me.example\r\n" then r := r.dis c s!"output model={hex (exp ++ str "221 me.example\r\n")} impl={hex c.out}"
+        if c.exit != 0 then r := r.dis c s!"exit model=0 impl={c.exit}"
+      else if d.rest.isEmpty then
+        if c.out != exp then r := r.dis c s!"output model={hex exp} impl={hex c.out}"
+        if c.exit != 1 then r := r.dis c s!"exit model=1 impl={c.exit}"
+      else if c.out.take exp.length != exp then r := r.dis c s!"output-prefix model={hex exp} impl={hex c.out}"
   -- (2) oracle: reference decoder, independent hop count, acknowledged addresses read off the replies
   let lines := splitCRLF [] c.out
-  let base := 1 + (if heloO.isSome then 1 else 0)
+  let base := 1 + (if heloO.isSome then (if ehlo then 3 else 1) else 0)
   let mailAck := lines.getD base [] == str "250 ok"
   let rcptAcks := (rcpts.zip (lines.drop (base + 1))).filter (fun (_, l) => l == str "250 ok")
   let ackedAddrs := rcptAcks.map (fun (a, _) => a ++ relayB)
@@ -343,6 +381,7 @@ def smtpCheck (c : Case) (r0 : Rep) : Rep := Id.run do
     if acked then
       match c.recs with
       | [(f0, f1)] =>
+        r := recvCheck r c f0
         if !(mailAck && dataLine == str "354 go ahead" && Queued f0 f1 e.exit e.crashed content sender ackedAddrs) then
           r := r.ora c "ack-not-exact" s!"acknowledged but queue got fd0={hex f0} fd1={hex f1} exit={e.exit} crashed={e.crashed} expected-content={hex content} expected-rcpts={ackedAddrs.map hex}"
       | _ => r := r.ora c "ack-without-queue" "acknowledged but no (single) queue run"
@@ -426,6 +465,45 @@ def dateLine (st0 : Stats) (fs : List String) : IO Stats := do
     | _ => bad st "unparsable-line"
   | _ => bad st "unparsable-line"
 
+/-! ### real-queue leg: the queue directory in the place of the pipes -/
+
+/-- the mess file behind qmail-queue's own trace line "Received: (qmail <pid> invoked …); <date>\n" -/
+def stripQqLine (mess : Bytes) : Bytes :=
+  let pre := str "Received: (qmail "
+  if mess.take pre.length == pre then (mess.dropWhile (· != 10)).drop 1 else mess
+
+/-- the todo file is "u<uid>\0p<pid>\0" followed by the envelope without its final NUL: give back the envelope as
+    the pipe carried it (anything else: as it is, it will not parse) -/
+def todoEnvelope (todo : Bytes) : Bytes :=
+  let field := fun (tag : Byte) (b : Bytes) =>
+    match b with
+    | t :: r => if t == tag && (r.takeWhile (· != 0)).all isDigit && (r.dropWhile (· != 0)).length > 0
+                then some ((r.dropWhile (· != 0)).drop 1) else none
+    | [] => none
+  match field 117 todo with
+  | some r1 => match field 112 r1 with
+    | some r2 => r2 ++ [0]
+    | none => todo
+  | none => todo
+
+def realCheck (c : Case) (r0 : Rep) (check : Case → Rep → Rep) : Rep := Id.run do
+  let mut r := r0
+  if c.real.length != c.recs.length then return r.dis c s!"real-queue leg: {c.real.length} run reports for {c.recs.length} queue runs"
+  -- the interface on which the pipe-level reasoning rests (qmail-queue.8; C07's mechanism "failure => envelope never
+  -- completed => qmail-queue aborts"): nothing is committed unless the envelope was complete, and then the status is 0
+  for ((code, committed, _, _), (_, f1)) in c.real.zip c.recs do
+    if code < 0 then r := r.dis c "real-queue leg: a queue run left no report (killed?)"
+    if committed && !envComplete f1 then
+      r := r.ora c "commit-on-incomplete-envelope" s!"qmail-queue committed a message although the envelope it was given is not complete (no terminating NUL before end of file): fd1={hex f1}"
+    if committed && code != 0 then
+      r := r.ora c "commit-with-failure-status" s!"qmail-queue committed a message and exited {code}"
+  if c.strays != 0 then r := r.ora c "stray-queue-entry" s!"{c.strays} entries in todo/ that belong to no queue run of this session"
+  -- the property itself, with the queue directory as the witness of "was committed to the queue"
+  let recs := c.real.map (fun (_, committed, mess, todo) => if committed then (stripQqLine mess, todoEnvelope todo) else ([], []))
+  let ends : List QEnd := c.real.map (fun (code, committed, _, _) => { exit := if committed then 0 else code.toNat, crashed := false, text := [] })
+  r := check { c with queueView := true, recs := recs, ends := ends } r
+  return r
+
 /-! ### line handler -/
 
 def handle (st : Stats) (line : String) : IO Stats := do
@@ -441,14 +519,19 @@ def handle (st : Stats) (line : String) : IO Stats := do
     let nontriv := !c.recs.isEmpty
     let mut st := { st with cases := st.cases + 1, seen := st.seen.insert h,
                             nontrivial := st.nontrivial + (if fresh && nontriv then 1 else 0) }
-    st := st.bump ("proto" ++ c.proto)
+    st := st.bump ("proto" ++ c.proto.toUpper)
     st := st.bump (s!"exit{c.exit}")
     if c.wleft.isSome then st := st.bump "writefault"
-    let r := match c.proto with
-      | "M" => qmtpCheck c { st := st }
-      | "Q" => qmqpCheck c { st := st }
-      | "S" => smtpCheck c { st := st }
-      | _ => (Rep.mk st []).dis c "unknown-protocol"
+    let check := fun (c : Case) (r : Rep) => match c.proto.toUpper with
+      | "M" => qmtpCheck c r
+      | "Q" => qmqpCheck c r
+      | "S" => smtpCheck c r
+      | _ => r.dis c "unknown-protocol"
+    let mut r := check c { st := st }
+    if c.proto != c.proto.toUpper then
+      st := r.st.bump "real-queue"
+      r := { r with st := st }
+      r := realCheck c r check
     for m in r.msgs do IO.println m
     st := r.st
     if fresh && nontriv && st.samples < 4 && c.out.length > 0 then
